@@ -90,6 +90,7 @@ def main(argv=None):
             print('INCONCLUSIVE property=%s precheck %s failed: %s' % (
                 prop, pre, (r.stdout + r.stderr)[-600:]))
             return EXIT_INCONCLUSIVE
+    reached_by_h = {}
     runs = []
     total = {'states': 0, 'transitions': 0, 'validated': 0, 'queries': 0,
              'closing': 0, 'solver_s': 0.0, 'realisations': 0,
@@ -154,10 +155,13 @@ def main(argv=None):
             if s['divergences']:
                 problems.append('%s: model divergence: %s' %
                                 (h.name, s['divergences'][0]))
-            if not s['reached'] and not s['violations']:
-                problems.append('%s: vacuous (no check reached)' % h.name)
+            reached_by_h[h.name] = reached_by_h.get(h.name, 0) + sum(
+                s['reached'].values())
 
     explore.drop_pool()
+    for hname, cnt in reached_by_h.items():
+        if cnt == 0 and not any(v[0].name == hname for v in violations):
+            problems.append('%s: vacuous (no check reached)' % hname)
     # --- report -----------------------------------------------------------
     known_ids = explore.load_known(prop)
     rc = EXIT_OK
